@@ -401,7 +401,7 @@ def c16(ctx):
     start(ctx)
     rng = random.Random(ctx.seed + 1)
     fm = tiers(ctx, gen.TRANS_FMTS_Q, gen.TRANS_FMTS_T)
-    extra = gen.exp_threshold_lines(rng, fm) + gen.log_near_one_lines(rng, fm, tiers(ctx, 12, 60))
+    extra = gen.exp_threshold_lines(rng, fm) + gen.log_near_one_lines(rng, fm, tiers(ctx, 12, 60)) + gen.exp_narrow_wide_lines(rng, tiers(ctx, 40, 400)) + gen.exp_top_binade_lines(tiers(ctx, [11, 12, 13], [9, 10, 11, 12, 13, 14, 15, 16]))
     _fn_check(ctx, ["exp", "log", "sigmoid"], "exp-log-sigmoid", extra)
     ctx.assumptions.append("accuracy clause: searched with mpmath at 4x precision (no theorem); special-operand clauses: theorems")
     return done(ctx)
@@ -479,7 +479,9 @@ def c19(ctx):
     """totality: every public operation x extreme values x wide-exponent formats x modes x both build profiles"""
     start(ctx, profiles=("release", "dbg"))
     rng = random.Random(ctx.seed)
-    fm = tiers(ctx, [(5, 11), (8, 24), (11, 53), (15, 64), (19, 237), (20, 30), (3, 3), (2, 2)], [(5, 11), (8, 8), (8, 24), (11, 53), (15, 64), (15, 113), (19, 237), (20, 30), (20, 64), (3, 3), (2, 2), (2, 3), (12, 300)])
+    # the last five: precision far beyond the exponent range (p > 2^(E-1)), where reciprocals and squares of subnormals leave a range widened by a few bits only
+    fm = tiers(ctx, [(5, 11), (8, 24), (11, 53), (15, 64), (19, 237), (20, 30), (3, 3), (2, 2), (5, 30), (4, 20), (7, 100), (3, 12), (2, 9)],
+               [(5, 11), (8, 8), (8, 24), (11, 53), (15, 64), (15, 113), (19, 237), (20, 30), (20, 64), (3, 3), (2, 2), (2, 3), (12, 300), (5, 30), (4, 20), (7, 100), (3, 12), (2, 9), (6, 70), (4, 64)])
     lines = []
     for (E, P) in fm:
         for m in MODES:
@@ -514,8 +516,11 @@ def c19(ctx):
             lines.append("frombig %s %x" % (s, 2 ** 300 - 1))
     rng.shuffle(lines)
     if ctx.tier == "quick":
-        lines = lines[:9000]
+        lines = lines[:14000]
     tmo = tiers(ctx, 5.0, 30.0)
+    wide = gen.wide_exponent_prog_lines(rng, tiers(ctx, 40, 400))
+    ctx.stream("wide-exponent-core-release", wide, spec_mode="prog", nontrivial=lambda t: True)
+    ctx.stream("wide-exponent-core-dbg", wide, spec_mode="prog", profile="dbg", nontrivial=lambda t: True)
     ctx.stream("extremes-release", lines, spec_mode="total", nontrivial=lambda t: True, chunk_timeout=900, per_line_timeout=tmo)
     ctx.stream("extremes-dbg", lines, spec_mode="total", profile="dbg", nontrivial=lambda t: True, chunk_timeout=1800, per_line_timeout=tmo * 2)
     ctx.assumptions.append("stack exhaustion, allocation failure and wall-clock time are runtime behaviour the model cannot exhibit: they are observed by the supervised harness (ABORT/HANG attributed to single lines); the fuel/termination theorems cover the logic")
